@@ -15,7 +15,7 @@ import e2e
 import impl
 import preccorr
 
-LEAN_TARGETS = ["CM.Props.Lift", "CM.Props.C08", "CM.Props.Prec", "CM.Props.C08Gen"]
+LEAN_TARGETS = ["CM.Props.Lift", "CM.Props.C08", "CM.Props.Prec", "CM.Props.C08Gen", "CM.Props.PrecSem"]
 THEOREMS = [
     "CM.Pipeline.C08_run_equiv",
     "CM.Pipeline.run_preserves",
@@ -32,6 +32,8 @@ THEOREMS = [
     "CM.Prec.C08_invert_old_drops_parentheses",
     "CM.Prec.C08_walrus_old_loses_precedence",
     "CM.Prec.C01_walrus_old_bare_tuple",
+    "CM.Prec.C08_combine_preserves_value",
+    "CM.Prec.C08_combine_and_fold_changes_value",
     "CM.Generated.gen_inv_eq",
     "CM.Prec.C08_inv_table_from_source",
     "CM.Prec.C08_inv_source_involutive",
@@ -414,8 +416,34 @@ def family_case(job):
         shutil.rmtree(root, ignore_errors=True)
 
 
+AND_FOLDS: dict = {}
+
+
+def model_and_folds(progs):
+    """for generated combine-startswith-endswith programs: does the model's pass fold through an `and` on the printed expression
+    (CM.Prec.andFolds - the one shape in which C08_combine_preserves_value does not apply, i.e. the recorded regrouping finding)"""
+    import libcst as cst
+    trees = {}
+    for p in progs:
+        try:
+            expr = cst.parse_module(p).body[-1]
+            call = expr.body.body[0].body[0].value if isinstance(expr, cst.Try) else None   # try: print(EXPR)
+            t = preccorr.from_cst(call.args[0].value) if call is not None else None
+        except Exception:
+            t = None
+        if t is not None:
+            trees[p] = t
+    if trees:
+        for p, a in zip(trees, common.lean_ask([{"op": "prec", "e": t} for t in trees.values()])):
+            if "and_folds" in a:
+                AND_FOLDS[p] = a["and_folds"]
+
+
 def classify(cid, prog, rec):
     """shape class of a behaviour change (for known-findings matching)"""
+    if prog in AND_FOLDS:
+        # decided by the model: the value can only change through the `and`-fold (C08_combine_preserves_value)
+        return "mixed-and-or" if AND_FOLDS[prog] else ("name-bound-to-tuple" if any(n in prog.split("print(")[1] for n in ("pfx", "tup")) else "other")
     if cid.endswith("invert-boolean-check"):
         if any(v in prog for v in ("{1}", "{2}", "{1, 2}", "nan", "Loud(")) : return "partial-order-or-custom-operand"
         return "other"
@@ -454,6 +482,9 @@ def search(ctx):
         cid = j["codemod"]
         if r["rc"] != ["exit", 0]:
             ctx.fail({"kind": "cli-crash", "codemod": cid}, f"CLI failed {r['rc']}", {"codemod": cid}); continue
+        if cid.endswith("combine-startswith-endswith"):
+            model_and_folds([j["programs"][rec["i"]] for rec in r["records"] if rec["changed"] and not rec.get("dropped") and not rec["same"]])
+            ctx.stat("combine-failures-classified-by-model", len(AND_FOLDS))
         for rec in r["records"]:
             prog = j["programs"][rec["i"]]
             ctx.search_case("exec:" + cid, {"codemod": cid, "program": prog[-160:]}, rec["changed"])
